@@ -49,8 +49,13 @@ RULES = {
     "`device_configurations=` argument of the Model it builds reaches `self.device_configurations` without a copying operation "
     "(copy.deepcopy / copy.copy / dataclasses.replace / a constructor) on any alternative: copies that are equal but not identical "
     "leave every node annotation of the clone pointing at a configuration its model does not register",
+    "R13": "an update is built on the current state, not on a snapshot (shared rule S20): where the annotation code (deserializer, cloner, "
+    "core helpers) assigns `<node>.device_configurations` (or another attribute) inside a loop, the new value is not computed from a "
+    "local that was read from that attribute before the loop and never refreshed - each iteration would start again from the old tuple "
+    "and undo the previous one, so of a node annotated under two configurations only the last is bound to the configuration "
+    "registered on the model after a round trip",
 }
-FLOORS = {"R1": 12, "R2": 4, "R3": 4, "R4": 4, "R5": 4, "R6": 6, "R7": 2, "R8": 3, "R9": 2, "R10": 10, "R11": 10, "R12": 1}
+FLOORS = {"R1": 12, "R2": 4, "R3": 4, "R4": 4, "R5": 4, "R6": 6, "R7": 2, "R8": 3, "R9": 2, "R10": 10, "R11": 10, "R12": 1, "R13": 3}
 EXPLANATION = (
     "Structural checks on the record classes, on every writer of a node's input/output tuples, on the serializer's "
     "name derivation, the C06 write-before-reject analysis for the annotation API, and ordering (dominator) checks in "
@@ -470,9 +475,31 @@ def rule_r12(ctx):
     ctx.require(n >= 1, "Model.clone builds no Model")
 
 
+def rule_r13(ctx):
+    from ..shared import stale_snapshot_updates
+
+    n = 0
+    funcs = [f for mn in ("onnx_ir.serde", "onnx_ir._cloner", CORE, MD) for f in ctx.repo.live(ctx.repo.module(mn).all_funcs) if not isinstance(f.node, ast.Lambda)]
+    for f in funcs:
+        hits = stale_snapshot_updates(f)
+        n += getattr(f, "_s20_examined", 0)
+        for lp, a, nm, attr in hits:
+            ctx.check("R13", f"{f.local}: `{norm(a.targets[0])} = …` builds on the current value", False, f, a,
+                      f"`{norm(a)[:90]}` is computed from `{nm}`, a snapshot of `{attr}` taken before the loop and never refreshed: every iteration starts from the old value, so "
+                      "what an earlier iteration wrote is overwritten - with several entries to rewrite only the last rewrite survives (a node annotated under two "
+                      "configurations keeps the unregistered placeholder in the first one after deserialization)",
+                      how="S20: attribute stores inside loops whose right-hand side reads a local bound, outside the loop, to that same attribute",
+                      construct=f"{attr} rebuilt from a stale snapshot in {f.local}")
+    for _ in range(min(n, 50)):
+        ctx.counts["R13"] = ctx.counts.get("R13", 0) + 1
+    ctx.ob("R13", f"{n} attribute stores inside loops examined in the deserializer, the cloner and the core classes", True, nontrivial=False, how="S20")
+    ctx.require(n >= 3, f"only {n} attribute stores inside loops found")
+
+
 def run(ctx):
     from ..shared import rule_s17
 
+    rule_r13(ctx)
     rule_r12(ctx)
     rule_r11(ctx)
 
